@@ -142,6 +142,8 @@ func cErrClass(err error) string {
 	}
 	s := err.Error()
 	switch {
+	case s == "client terminated":
+		return "terminated"
 	case s == "connect timeout":
 		return "connect-timeout"
 	case strings.Contains(s, "rejected"):
